@@ -315,6 +315,104 @@ def chk_enclosing(g, pts_world, res, slack=Fr(0)):
     return True, ""
 
 
+def region_variants(region):
+    """other container types holding exactly the same region / vertex set (same CRS): `enclosing` must not care.
+    BoundingBox <-> its polygon <-> the multipoint / closed ring of its corners; polygon <-> its exterior ring (line)
+    <-> the multipoint of its vertices; line <-> multipoint; point <-> one-element multipoint."""
+    from odc.geo import geom as GM
+    from odc.geo.geom import BoundingBox
+
+    out = []
+    if isinstance(region, BoundingBox):
+        poly = region.polygon
+        out.append(("bbox.polygon", poly))
+        out.append(("multipoint(corners)", GM.multipoint(poly.exterior.points[:-1], region.crs)))
+        out.append(("line(ring)", GM.line(poly.exterior.points, region.crs)))
+        return out
+    t = region.geom_type
+    if t == "Polygon":
+        pts = region.exterior.points
+        out.append(("line(ring)", GM.line(pts, region.crs)))
+        out.append(("multipoint(vertices)", GM.multipoint(pts[:-1], region.crs)))
+    elif t == "LineString":
+        out.append(("multipoint(vertices)", GM.multipoint(region.points, region.crs)))
+    elif t == "Point":
+        out.append(("multipoint(point)", GM.multipoint(region.points, region.crs)))
+    elif t == "MultiPoint":
+        pts = [g_.points[0] for g_ in region.geoms]
+        if len(pts) >= 2:
+            out.append(("line(vertices)", GM.line(pts, region.crs)))
+    return out
+
+
+def chk_container_equivalence(g, region, res):
+    """same region in another container type -> the same GeoBox (exact equality: the same vertices are mapped)"""
+    for nm, alt in region_variants(region):
+        try:
+            o = g.enclosing(alt)
+        except Exception as e:  # pylint: disable=broad-except
+            return False, f"enclosing({nm}) raised {e!r} while the original container gave {res!r}"
+        if o != res:
+            return False, (f"enclosing({type(region).__name__ if not hasattr(region, 'geom_type') else region.geom_type}) = "
+                           f"{res!r} but enclosing({nm}) = {o!r}")
+    return True, ""
+
+
+def region_dict(region):
+    from odc.geo.geom import BoundingBox
+
+    if isinstance(region, BoundingBox):
+        return {"type": "BoundingBox", "bbox": [float(v) for v in region.bbox], "crs": str(region.crs)}
+    return {"type": "Geometry", "wkt": region.wkt, "crs": str(region.crs)}
+
+
+def region_from(d):
+    from odc.geo.geom import BoundingBox, Geometry
+    from shapely import wkt as _wkt
+
+    if d["type"] == "BoundingBox":
+        return BoundingBox(*d["bbox"], d["crs"])
+    return Geometry(_wkt.loads(d["wkt"]), d["crs"])
+
+
+def region_vertices_in(region, crs):
+    """vertices of the region's own polygon / geometry, re-projected by pyproj exactly as Geometry.to_crs does"""
+    from odc.geo.geom import BoundingBox
+
+    gg = region.polygon if isinstance(region, BoundingBox) else region
+    gg = gg.to_crs(crs)
+    return [tuple(c[:2]) for c in _all_coords(gg)]
+
+
+def _all_coords(gg):
+    t = gg.geom_type
+    if t == "Polygon":
+        return list(gg.exterior.points)
+    if t.startswith("Multi") or t == "GeometryCollection":
+        out = []
+        for sub in gg.geoms:
+            out += _all_coords(sub)
+        return out
+    return list(gg.points)
+
+
+def chk_region_enclosing(g, region):
+    """the full enclosing predicate for any region type / CRS -> list of (key, ok, what)"""
+    r = g.enclosing(region)
+    verts = region_vertices_in(region, g.crs)
+    same = region.crs == g.crs
+    ok, what = chk_enclosing(g, verts, r, Fr(1, 10**6))
+    if ok or same:
+        key = "enclosing-not-tight-cover-on-grid"
+    elif what.startswith("excess"):
+        key = "enclosing-cross-crs-excess"          # overshoot: never excused by the curved-edge finding
+    else:
+        key = "enclosing-cross-crs-vertex-not-covered"
+    ok2, what2 = chk_container_equivalence(g, region, r)
+    return [(key, ok, f"{what} (region {region!r}, result {r!r})" if not ok else ""),
+            ("enclosing-region-container-equivalence", ok2, what2)]
+
+
 def chk_snap(a, other, res, slack=Fr(0), tol=Fr(1e-8)):
     """res = a moved by <= 1/2 px; res on other's grid (exactly, or within tol when no move was made)"""
     if tuple(res.shape) != tuple(a.shape) or res.crs != a.crs:
@@ -895,6 +993,8 @@ def run(R: Run):
             else:
                 oracle(chk_enclosing(g, verts, res[0], Fr(0) if exact else Fr(1, 10**6)),
                        "enclosing-not-tight-cover-on-grid", case, sig="encl|" + kind)
+                oracle(chk_container_equivalence(g, region, res[0]), "enclosing-region-container-equivalence",
+                       {"op": "encl-region", "g": gb_dict(g), "region": region_dict(region)}, sig="encl-equiv|" + kind)
 
     kinds = ["bbox", "poly", "line", "mpoint", "point"]
     for it in range(R.pick(900, 9000)):
@@ -1110,10 +1210,73 @@ def float_stream(R: Run, oracle, stats):
                    {"op": "encl-x", "g": gb_dict(g), "bbox": list(region.bbox), "crs": "EPSG:4326"}, sig="float|encl|cross-crs")
         except Exception as e:  # pylint: disable=broad-except
             R.oracle(False, "enclosing-raises", {"g": gb_dict(g), "bbox": list(region.bbox)}, f"raised {e!r}")
+    cross_crs_enclosing(R)
     # recorded finding K3 (one deterministic case): the curved image of an edge is not covered
     ok, what = curved_edge_case(utm, (13.0, 60.0, 17.0, 60.5))
     R.oracle(ok, "enclosing-cross-crs-curved-edge", {"op": "encl-curved", "g": gb_dict(utm), "bbox": [13.0, 60.0, 17.0, 60.5],
                                                      "crs": "EPSG:4326"}, what, sig="float|encl|curved-edge")
+
+
+def cross_crs_enclosing(R: Run):
+    """enclosing of BoundingBox and Geometry regions given in ANOTHER CRS, on north-up / mirrored / rotated / sheared
+    grids, over several CRS pairs.  Judged against the polygon through the pyproj-re-projected vertices of the
+    region's own polygon: covers them, excess < 1 px per side in the grid's pixel space (two-sided), and the result
+    does not depend on the container type."""
+    from affine import Affine
+    from odc.geo import geom as GM
+    from odc.geo.crs import CRS
+    from odc.geo.geobox import GeoBox
+    from odc.geo.geom import BoundingBox
+
+    rng = R.rng
+    # (region CRS, grid CRS, lon range, lat range of the area of use)
+    pairs = [("EPSG:4326", "EPSG:3577", (115, 150), (-40, -12)), ("EPSG:4326", "EPSG:32633", (12.5, 17.5), (5, 80)),
+             ("EPSG:4326", "EPSG:3857", (-170, 170), (-75, 75)), ("EPSG:4326", "EPSG:6933", (-170, 170), (-80, 80)),
+             ("EPSG:32633", "EPSG:3857", (12.5, 17.5), (5, 80)), ("EPSG:3577", "EPSG:6933", (115, 150), (-40, -12)),
+             ("EPSG:3857", "EPSG:32633", (12.5, 17.5), (5, 75)), ("EPSG:3577", "EPSG:4326", (115, 150), (-40, -12)),
+             ("EPSG:6933", "EPSG:3577", (115, 150), (-40, -12))]
+    lins = [("north-up", lambda: Affine.identity()), ("mirror-x", lambda: Affine.scale(-1, 1)),
+            ("south-up", lambda: Affine.scale(1, -1)), ("rot", lambda: Affine.rotation(rng.choice([30, 45, 90, 17.3, -120, 200]))),
+            ("rot", lambda: Affine.rotation(rng.uniform(0, 360))), ("shear", lambda: Affine.shear(rng.choice([10, 25, -35]), 0)),
+            ("rot-shear", lambda: Affine.rotation(rng.uniform(0, 360)) * Affine.shear(0, rng.choice([15, -20])))]
+    ll = CRS("EPSG:4326")
+    for it in range(R.pick(260, 2600)):
+        src, dst, lonr, latr = pairs[it % len(pairs)]
+        src_crs, dst_crs = CRS(src), CRS(dst)
+        lon, lat = rng.uniform(*lonr), rng.uniform(*latr)
+        nm, mk = lins[(it // len(pairs)) % len(lins)]
+        try:
+            c_dst = GM.point(lon, lat, ll).to_crs(dst_crs).points[0]
+            c_src = GM.point(lon, lat, ll).to_crs(src_crs).points[0]
+            geo_dst = dst_crs.geographic
+            res_ = rng.choice([0.00025, 0.001, 1 / 3600]) if geo_dst else rng.choice([10.0, 30.0, 100.0, 250.0])
+            A = Affine.translation(c_dst[0] + rng.uniform(-1, 1) * res_, c_dst[1] + rng.uniform(-1, 1) * res_) \
+                * mk() * Affine.scale(res_, -res_)
+            g = GeoBox((rng.randint(1, 500), rng.randint(1, 500)), A, dst_crs)
+            # region around the centre, in the source CRS (a few px .. a few thousand px)
+            ext = (rng.uniform(0.0005, 0.3) if src_crs.geographic else rng.uniform(50, 30000))
+            k = rng.choice(["bbox", "bbox", "poly", "mpoint", "line", "point"])
+            n = {"bbox": 2, "poly": rng.randint(3, 6), "mpoint": rng.randint(1, 5), "line": rng.randint(2, 4), "point": 1}[k]
+            pts = [(c_src[0] + rng.uniform(-1, 1) * ext, c_src[1] + rng.uniform(-1, 1) * ext) for _ in range(n)]
+            if k == "bbox":
+                xs_, ys_ = [q[0] for q in pts], [q[1] for q in pts]
+                region = BoundingBox(min(xs_), min(ys_), max(xs_), max(ys_), src_crs)
+            elif k == "poly":
+                cx, cy = sum(q[0] for q in pts) / n, sum(q[1] for q in pts) / n
+                pts.sort(key=lambda q: math.atan2(q[1] - cy, q[0] - cx))
+                region = GM.polygon(pts + [pts[0]], src_crs)
+            elif k == "mpoint":
+                region = GM.multipoint(pts, src_crs)
+            elif k == "line":
+                region = GM.line(pts, src_crs)
+            else:
+                region = GM.point(pts[0][0], pts[0][1], src_crs)
+            case = {"op": "encl-region", "g": gb_dict(g), "region": region_dict(region)}
+            for key, ok, what in chk_region_enclosing(g, region):
+                R.oracle(ok, key, case, what, sig=f"float|encl-x|{nm}|{k}|{src[5:]}>{dst[5:]}")
+        except Exception as e:  # pylint: disable=broad-except
+            R.oracle(False, "enclosing-raises", {"op": "encl-x", "src": src, "dst": dst, "lon": lon, "lat": lat},
+                     f"raised {e!r}")
 
 
 def curved_edge_case(g, bbox):
@@ -1213,6 +1376,12 @@ def eval_case(key, case, verbose=False):
         a, b, c = gs[:3]
         ok3 = same_gbox((a | b) | c, a | (b | c), sl) and same_gbox((a & b) & c, a & (b & c), sl)
         return ok1 and ok2 and ok3, "; ".join(x for x in (w1, w2, "" if ok3 else "not associative") if x)
+    if case.get("op") == "encl-region":
+        g = gb_from(case["g"])
+        region = region_from(case["region"])
+        say("enclosing =", g.enclosing(region))
+        bad = [(k, w) for k, ok, w in chk_region_enclosing(g, region) if not ok]
+        return (not bad, "; ".join(f"[{k}] {w}" for k, w in bad))
     if case.get("op") == "encl":
         from odc.geo import geom as GM
 
